@@ -12,11 +12,15 @@ package main
 import (
 	"encoding/json"
 	"fmt"
+	"math/big"
 	"os"
+	"os/exec"
 	"runtime"
 	"runtime/pprof"
 	"sort"
+	"strings"
 	"sync"
+	"time"
 
 	"github.com/NethermindEth/juno/core"
 	"github.com/NethermindEth/juno/core/felt"
@@ -179,6 +183,18 @@ var directedScenarios = []directed{
 		return sc1(specs("0.14.1", D().Deploy(0x104, 0xc000).Set(0x104, 1, 1).Set(1, 1, 1), D().Set(0x104, 1, 2).Nonce(0x104, 1)), 2,
 			D().Deploy(0x105, 0xc000).Spec("0.14.1"), D().Set(0x105, 1, 1).Spec("0.14.1"))
 	}},
+	{"deploy-and-replace-same-address", func(ns bool) *Scenario { // one address in two sections (904a370)
+		return sc1(specs("0.14.0", D().Deploy(0x105, 0xc000), D().Deploy(0x104, 0xc000).Replace(0x104, 0xc001).Nonce(0x104, 1).Set(0x104, 1, 1),
+			D().Replace(0x104, 0xc002)), 1, D().Replace(0x104, 0xc003).Spec("0.14.0"))
+	}},
+	{"deploy-and-replace-reverted-together", func(ns bool) *Scenario {
+		return sc1(specs("0.14.0", D().Deploy(0x105, 0xc000), D().Deploy(0x104, 0xc000).Replace(0x104, 0xc001), D().Replace(0x104, 0xc002).Nonce(0x104, 2)), 2,
+			D().Deploy(0x104, 0xc003).Spec("0.14.0"))
+	}},
+	{"duplicate-cairo0-declaration", func(ns bool) *Scenario { // DeclaredV0Classes is a slice: [c, c]
+		return sc1([]*lib.BlockSpec{D().Spec("0.13.2"), declareV0(declareV0(D().Spec("0.13.2"), 0xd007, true), 0xd007, false)}, 1,
+			declareV0(D().Spec("0.13.2"), 0xd007, true))
+	}},
 	{"l1-handler-reverted-and-resent", func(ns bool) *Scenario {
 		tx, rc := l1Tx(7)
 		a := D().Deploy(0x104, 0xc000).Spec("0.14.0")
@@ -187,6 +203,107 @@ var directedScenarios = []directed{
 		c := D().Spec("0.14.0")
 		c.NoTxs, c.Txs, c.Rcs = false, []core.Transaction{tx}, []*core.TransactionReceipt{rc}
 		return sc1([]*lib.BlockSpec{a, b}, 1, D().Spec("0.14.0"), c)
+	}},
+}
+
+// mySierra builds a small Sierra class (hash computed by juno).
+func mySierra(i uint64) (felt.Felt, *core.SierraClass, felt.Felt, felt.Felt) {
+	casm := &core.CasmClass{
+		Bytecode:        []felt.Felt{*lib.F(11 + i), *lib.F(2), *lib.F(13 + i), *lib.F(4)},
+		CompilerVersion: "2.1.0",
+		Prime:           new(big.Int).SetUint64(1),
+		External:        []core.CasmEntryPoint{{Offset: i, Builtins: []string{"range_check"}, Selector: lib.F(177 + i)}},
+		L1Handler:       []core.CasmEntryPoint{},
+		Constructor:     []core.CasmEntryPoint{{Offset: 1, Builtins: []string{}, Selector: lib.F(188)}},
+	}
+	cls := &core.SierraClass{
+		Abi:     fmt.Sprintf("[c04 abi %d]", i),
+		AbiHash: lib.F(3000 + i),
+		EntryPoints: core.SierraEntryPointsByType{
+			Constructor: []core.SierraEntryPoint{{Index: 0, Selector: lib.F(188)}},
+			External:    []core.SierraEntryPoint{{Index: 1, Selector: lib.F(177 + i)}},
+			L1Handler:   []core.SierraEntryPoint{},
+		},
+		Program:         []felt.Felt{*lib.F(1), *lib.F(6), *lib.F(0), *lib.F(i), *lib.F(9)},
+		ProgramHash:     lib.F(4000 + i),
+		SemanticVersion: "0.1.0",
+		Compiled:        casm,
+	}
+	h, err := cls.Hash()
+	if err != nil {
+		panic(err)
+	}
+	return h, cls, casm.Hash(core.HashVersionV1), casm.Hash(core.HashVersionV2)
+}
+
+func declareSierra(s *lib.BlockSpec, i uint64, v2 bool) *lib.BlockSpec {
+	h, cls, c1, c2 := mySierra(i)
+	casm := c1
+	if v2 {
+		casm = c2
+	}
+	s.Diff.DeclaredV1Classes[h] = &casm
+	if s.Classes == nil {
+		s.Classes = map[felt.Felt]core.ClassDefinition{}
+	}
+	s.Classes[h] = cls
+	return s
+}
+
+// outsideScenarios: each violates exactly ONE clause of the theorems' hypothesis BlockOK (or of the
+// Fresh part of it) and is run on the real code and on the model. Recorded outcome per backend:
+// refused-by-juno / stored-and-undone / stored-not-undone(sig). The model must agree in every case.
+var outsideScenarios = []directed{
+	{"fresh.txs:transaction-hash-already-indexed", func(ns bool) *Scenario {
+		g := lib.NewChainGen(lib.NewRNG(11), false, genOptions())
+		tx := g.GenTx("0.14.0")
+		for {
+			if _, l1 := tx.(*core.L1HandlerTransaction); !l1 {
+				break
+			}
+			tx = g.GenTx("0.14.0")
+		}
+		rc := g.GenReceipt(tx)
+		a, b := D().Deploy(0x104, 0xc000).Spec("0.14.0"), D().Spec("0.14.0")
+		a.NoTxs, a.Txs, a.Rcs = false, []core.Transaction{tx}, []*core.TransactionReceipt{rc}
+		b.NoTxs, b.Txs, b.Rcs = false, []core.Transaction{tx}, []*core.TransactionReceipt{rc}
+		return sc1([]*lib.BlockSpec{a, b}, 1)
+	}},
+	{"fresh.msgs:l1-message-already-indexed", func(ns bool) *Scenario {
+		tx, rc := l1Tx(9)
+		a, b := D().Deploy(0x104, 0xc000).Spec("0.14.0"), D().Spec("0.14.0")
+		a.NoTxs, a.Txs, a.Rcs = false, []core.Transaction{tx}, []*core.TransactionReceipt{rc}
+		b.NoTxs, b.Txs, b.Rcs = false, []core.Transaction{tx}, []*core.TransactionReceipt{rc}
+		return sc1([]*lib.BlockSpec{a, b}, 1)
+	}},
+	{"decl1:sierra-class-declared-again", func(ns bool) *Scenario {
+		return sc1([]*lib.BlockSpec{declareSierra(D().Spec("0.14.0"), 1, false), declareSierra(D().Spec("0.14.0"), 1, false)}, 1)
+	}},
+	{"decl1:sierra-declaration-without-definition", func(ns bool) *Scenario {
+		s := declareSierra(D().Spec("0.14.0"), 2, false)
+		s.Classes = map[felt.Felt]core.ClassDefinition{}
+		return sc1([]*lib.BlockSpec{D().Spec("0.14.0"), s}, 1)
+	}},
+	{"defsListed:definition-neither-declared-nor-deployed", func(ns bool) *Scenario {
+		return sc1([]*lib.BlockSpec{D().Spec("0.13.2"), withClass(D().Spec("0.13.2"), 0xc009)}, 1)
+	}},
+	{"depNotSys:system-contract-address-deployed", func(ns bool) *Scenario {
+		return sc1(specs("0.14.0", D().Deploy(0x104, 0xc000), D().Deploy(1, 0xc000).Set(1, 3, 1)), 1)
+	}},
+	{"migVer:migration-before-0.14.1", func(ns bool) *Scenario {
+		h, _, _, c2 := mySierra(3)
+		m := D().Spec("0.14.0")
+		m.Diff.MigratedClasses[felt.SierraClassHash(h)] = felt.CasmClassHash(c2)
+		return sc1([]*lib.BlockSpec{declareSierra(D().Spec("0.14.0"), 3, false), m}, 1)
+	}},
+	{"known0:cairo0-declaration-of-unknown-class-without-definition", func(ns bool) *Scenario {
+		return sc1([]*lib.BlockSpec{D().Spec("0.13.2"), declareV0(D().Spec("0.13.2"), 0xd00a, false)}, 1)
+	}},
+	{"casmFresh+migrate:declare-and-migrate-in-one-block", func(ns bool) *Scenario {
+		h, _, _, c2 := mySierra(4)
+		s := declareSierra(D().Spec("0.14.1"), 4, true)
+		s.Diff.MigratedClasses[felt.SierraClassHash(h)] = felt.CasmClassHash(c2)
+		return sc1([]*lib.BlockSpec{D().Spec("0.14.1"), s}, 1)
 	}},
 }
 
@@ -296,6 +413,13 @@ func buildCase(cs caseSpec, thorough bool) *Scenario {
 				sc.Restart = cs.Case%3 == 0 // restarted copies compared in the variant without in-place restarts
 				sc.FailedOps = cs.Case%3 == 1
 				sc.RestartMode = cs.Case % 3 // variant: no restart / killed / graceful before the first revert
+			}
+		}
+	case "outside":
+		for _, d := range outsideScenarios {
+			if d.name == cs.Name {
+				sc = d.mk(cs.NewState)
+				sc.Restart = false
 			}
 		}
 	case "enum":
@@ -565,6 +689,8 @@ type probes struct {
 	removeImplicitClasses bool
 	legacyPurgeOnUpdate   bool
 	dropReopenedWindow    bool
+	legacyDedupDeclared   bool
+	failed                []string // probes that could not run
 }
 
 func runProbes(opt lib.GenOptions) probes {
@@ -572,26 +698,45 @@ func runProbes(opt lib.GenOptions) probes {
 	// 05cf200: legacy revert of a zero write to a never-written slot succeeds
 	r := execScenario(&Scenario{NewState: false, Main: specs("0.14.0", D().Deploy(0x104, 0xc000).Set(0x104, 1, 7), D().Set(0x104, 1, 8).Set(0x104, 2, 0)),
 		Rounds: []Round{{Revert: 1}}}, opt, false)
-	p.zeroWriteFix = !r.has("revert-fails-on-stored-block")
+	if r.Skipped != "" || r.Hits["revert-ok"]+r.Hits["revert-error"] == 0 {
+		p.failed = append(p.failed, "zeroWriteFix: "+r.Skipped)
+	}
+	p.zeroWriteFix = true
+	for _, f := range r.Findings {
+		if f.Sig == "revert-fails-on-stored-block" && strings.Contains(f.What, "check head state") {
+			p.zeroWriteFix = false
+		}
+	}
 	// class supplied for a deployed contract is removed by the revert
 	r = execScenario(&Scenario{NewState: true, Main: []*lib.BlockSpec{D().Spec("0.13.2"), withClass(D().Deploy(0x105, 0xc005).Spec("0.13.2"), 0xc005)},
 		Rounds: []Round{{Revert: 1}}}, opt, false)
-	p.removeImplicitClasses = r.Skipped == "" && !r.has("class-of-deployed-contract-survives-revert")
+	if r.Skipped != "" || r.Hits["revert-ok"] == 0 {
+		p.failed = append(p.failed, "removeImplicitClasses: "+r.Skipped)
+	}
+	p.removeImplicitClasses = !r.has("class-of-deployed-contract-survives-revert")
+	// legacy removeDeclaredClasses tolerates a class hash listed twice
+	r = execScenario(&Scenario{NewState: false, Main: []*lib.BlockSpec{D().Spec("0.13.2"), declareV0(declareV0(D().Spec("0.13.2"), 0xd007, true), 0xd007, false)},
+		Rounds: []Round{{Revert: 1}}}, opt, false)
+	if r.Skipped != "" || r.Hits["revert-ok"]+r.Hits["revert-error"] == 0 {
+		p.failed = append(p.failed, "legacyDedupDeclared: "+r.Skipped)
+	}
+	p.legacyDedupDeclared = !r.has(sigDupDeclared)
 	// legacy Update purges an emptied system contract (then the record is gone from the database)
 	n := newNode("P", false)
 	line := newLine(lib.NewRNG(3), false, opt)
-	okAll := true
 	for _, s := range specs("0.14.0", D().Set(1, 7, 5), D().Set(1, 7, 0)) {
 		b, err := line.Next(s)
-		if err != nil || n.Store(b) != nil {
-			okAll = false
-			break
+		if err != nil {
+			p.failed = append(p.failed, "legacyPurgeOnUpdate: "+err.Error())
+			return p
+		}
+		if err := n.Store(b); err != nil {
+			p.failed = append(p.failed, "legacyPurgeOnUpdate: "+err.Error())
+			return p
 		}
 	}
-	if okAll {
-		_, err := core.GetContractClassHash(n.DB, lib.F(1))
-		p.legacyPurgeOnUpdate = err != nil
-	}
+	_, err := core.GetContractClassHash(n.DB, lib.F(1))
+	p.legacyPurgeOnUpdate = err != nil
 	return p
 }
 
@@ -603,9 +748,12 @@ func b2i(b bool) int {
 }
 
 func (p probes) cfgLine(newState bool) string {
-	return fmt.Sprintf("cfg %d %d %d %d %d 2000", b2i(!newState), b2i(p.zeroWriteFix), b2i(p.dropReopenedWindow), b2i(p.removeImplicitClasses),
-		b2i(p.legacyPurgeOnUpdate))
+	return fmt.Sprintf("cfg %d %d %d %d %d %d 2000", b2i(!newState), b2i(p.zeroWriteFix), b2i(p.dropReopenedWindow), b2i(p.removeImplicitClasses),
+		b2i(p.legacyPurgeOnUpdate), b2i(p.legacyDedupDeclared))
 }
+
+// caseDeadline bounds one scenario (a hang of the code under test is a finding, not a harness stall).
+const caseDeadline = 20 * time.Minute
 
 func main() {
 	if pf := os.Getenv("C04_PROF"); pf != "" { // developer aid: CPU profile
@@ -616,18 +764,34 @@ func main() {
 	f := lib.ParseFlags()
 	res := lib.NewResult("a case = one scenario on one state backend: node A stores a chain, then 1-2 rounds of (revert k blocks, follow a fork); " +
 		"after every round A is compared with a fresh node B that stored only the resulting chain (decoded database + full Reader API + restarted copies) " +
-		"and with the Lean model. Kinds: random forks, directed shapes, exhaustive 3-block/one-slot enumeration, 8192-block window crossing. " +
-		"Non-trivial = at least one block was reverted")
+		"and with the Lean model. Kinds: random forks, directed shapes (incl. blocks that violate one protocol assumption each), " +
+		"exhaustive 3-block/one-slot enumeration, 8192-block window crossing. Non-trivial = at least one block was reverted")
 	opt := genOptions()
 	pr := runProbes(opt)
-	res.Note("repairs detected in the tree under test: zeroWriteFix(05cf200)=%v removeImplicitClasses=%v legacyPurgeOnUpdate=%v", pr.zeroWriteFix,
-		pr.removeImplicitClasses, pr.legacyPurgeOnUpdate)
+	res.Note("repairs detected in the tree under test: zeroWriteFix(05cf200)=%v removeImplicitClasses(64c1acb)=%v legacyPurgeOnUpdate=%v legacyDedupDeclared=%v",
+		pr.zeroWriteFix, pr.removeImplicitClasses, pr.legacyPurgeOnUpdate, pr.legacyDedupDeclared)
+	for _, pf := range pr.failed {
+		res.Fatalf("probe could not run: %s", pf)
+	}
+	if !pr.zeroWriteFix || pr.legacyPurgeOnUpdate {
+		// Cfg.asFound does not hold for the legacy backend of this tree: the theorems say nothing about it
+		res.Fatalf("the legacy backend of the tree under test is not the code the theorems are about (Cfg.asFound): zeroWriteFix=%v legacyPurgeOnUpdate=%v",
+			pr.zeroWriteFix, pr.legacyPurgeOnUpdate)
+	}
+	if repo := os.Getenv("VERIF_REPO"); repo != "" {
+		if out, err := exec.Command("git", "-C", repo, "rev-parse", "HEAD").Output(); err == nil {
+			res.SetExtra("repo_head", strings.TrimSpace(string(out)))
+		}
+		if out, err := exec.Command("git", "-C", repo, "status", "--porcelain").Output(); err == nil {
+			res.SetExtra("repo_dirty", strings.TrimSpace(string(out)) != "")
+		}
+	}
 
 	var cases []caseSpec
 	if f.Replay != "" {
 		raw, err := os.ReadFile(f.Replay)
 		if err != nil {
-			res.Note("replay: %v", err)
+			res.Fatalf("replay: %v", err)
 			lib.Finish(f, res)
 		}
 		var doc struct {
@@ -636,7 +800,7 @@ func main() {
 			} `json:"replay"`
 		}
 		if err := json.Unmarshal(raw, &doc); err != nil || doc.Replay.Replay.Kind == "" {
-			res.Note("replay: cannot read a case from %s (%v)", f.Replay, err)
+			res.Fatalf("replay: cannot read a case from %s (%v)", f.Replay, err)
 			lib.Finish(f, res)
 		}
 		cases = []caseSpec{doc.Replay.Replay}
@@ -652,6 +816,11 @@ func main() {
 				for variant := 0; variant < 3; variant++ {
 					cases = append(cases, caseSpec{Kind: "directed", NewState: ns, Seed: f.Seed, Name: d.name, Case: variant})
 				}
+			}
+		}
+		for _, d := range outsideScenarios {
+			for _, ns := range []bool{false, true} {
+				cases = append(cases, caseSpec{Kind: "outside", NewState: ns, Seed: f.Seed, Name: d.name})
 			}
 		}
 		for i := 0; i < enumCount(f.Scale(3, 4)); i++ {
@@ -682,7 +851,7 @@ func main() {
 	for i := 0; i < nworkers; i++ {
 		d, err := lib.StartDriver(f.Driver)
 		if err != nil {
-			res.Note("driver: %v", err)
+			res.Fatalf("Lean driver did not start: %v", err)
 			lib.Finish(f, res)
 		}
 		defer d.Close()
@@ -707,40 +876,72 @@ func main() {
 			defer func() { <-sem }()
 			sc := buildCase(cs, f.Thorough())
 			if sc == nil {
-				res.Note("unknown case %+v", cs)
+				res.Fatalf("unknown case %+v", cs)
 				return
 			}
-			r := execScenario(sc, opt, true)
 			backend := "legacy"
 			if cs.NewState {
 				backend = "new"
+			}
+			var r *ExecResult
+			if !lib.WithDeadline(caseDeadline, func() { r = execScenario(sc, opt, true) }) {
+				res.Violate(lib.Violation{Sig: "scenario-does-not-terminate", What: fmt.Sprintf("[%s backend] a scenario did not finish within %s", backend, caseDeadline),
+					Replay: map[string]any{"replay": cs, "shrunk_history": scenarioText(sc)}})
+				return
 			}
 			res.Hit("kind=" + cs.Kind)
 			res.Hit("backend=" + backend)
 			for h, n := range r.Hits {
 				res.HitN(h, n)
 			}
-			if r.Skipped != "" {
-				res.Hit("skipped")
-				res.Note("case %+v skipped: %s", cs, r.Skipped)
-				return
-			}
-			res.Compared(r.Compared)
-			res.Case(fmt.Sprintf("%s/%s/%d/%d/%s", cs.Kind, backend, cs.Seed, cs.Case, cs.Name), r.Hits["revert-ok"] > 0)
+			// the model is asked about everything that happened, also when the scenario ended early
+			answers := map[string]string{}
 			if r.Trace != nil {
 				p := pr
 				if cs.Kind == "window" {
 					p.dropReopenedWindow = r.Hits["reopened-window-dropped"] > 0
 				}
 				d := <-drivers
-				n, err := r.Trace.runModel(d, p.cfgLine(cs.NewState), res, cs)
-				drivers <- d
+				n, ans, err := r.Trace.runModel(d, p.cfgLine(cs.NewState), res, cs)
 				if err != nil {
-					res.Note("driver: %v", err)
+					// a dead driver is not reused: start a fresh one for the other cases
+					res.Fatalf("Lean driver failed in case %+v: %v", cs, err)
+					d.Close()
+					if nd, err2 := lib.StartDriver(f.Driver); err2 == nil {
+						d = nd
+					}
 				}
+				drivers <- d
+				answers = ans
 				res.Compared(n)
 			}
+			res.Compared(r.Compared)
+			if cs.Kind == "outside" {
+				// blocks outside the protocol assumptions: what juno does with them is recorded; the
+				// property oracle (A == B) does not apply, the model correspondence does
+				outcome := "stored-and-undone"
+				switch {
+				case r.Skipped != "":
+					outcome = "refused-by-juno"
+				case len(r.Findings) > 0:
+					var sigs []string
+					for _, fd := range r.Findings {
+						sigs = append(sigs, fd.Sig)
+					}
+					sort.Strings(sigs)
+					outcome = "stored-not-undone(" + sigs[0] + ")"
+				}
+				res.Hit(fmt.Sprintf("outside-protocol:%s:%s:%s", cs.Name, backend, outcome))
+				res.Case(fmt.Sprintf("%s/%s/%s", cs.Kind, backend, cs.Name), true)
+				return
+			}
 			for _, fd := range r.Findings {
+				if m, ok := fd.Detail.(map[string]any); ok && m["k1_candidate"] == true {
+					step, _ := m["revert_step"].(string)
+					if answers[step] == "err:revRootOld" {
+						fd.Sig = sigK1 // the model of the code as found predicts exactly this failure here
+					}
+				}
 				res.Hit("finding:" + fd.Sig)
 				mu.Lock()
 				old := firstBySig[fd.Sig]
@@ -750,6 +951,12 @@ func main() {
 				}
 				mu.Unlock()
 			}
+			if r.Skipped != "" {
+				res.Hit("skipped")
+				res.Note("case %+v skipped: %s", cs, r.Skipped)
+				return
+			}
+			res.Case(fmt.Sprintf("%s/%s/%d/%d/%s", cs.Kind, backend, cs.Seed, cs.Case, cs.Name), r.Hits["revert-ok"] > 0)
 			if cs.Kind == "fork" {
 				res.Sample(5, map[string]any{"case": cs, "history": r.Ops})
 			}
@@ -774,11 +981,13 @@ func main() {
 				backend = "new"
 			}
 			sc, fd := job.sc, job.fd
-			if job.cs.Kind != "window" {
-				small := shrink(job.sc, sig, opt, 120)
+			// K1 is decided with the model's answer, which the shrinker does not have: shrink on the raw sig
+			raw := sig
+			if job.cs.Kind != "window" && sig != sigK1 {
+				small := shrink(job.sc, raw, opt, 120)
 				r := execScenario(small, opt, false)
 				for _, x := range r.Findings {
-					if x.Sig == sig {
+					if x.Sig == raw {
 						sc, fd = small, x
 					}
 				}
